@@ -5,13 +5,19 @@ pub mod oracle {
     pub mod eval;
     pub mod f2;
     pub mod f2small;
+    pub mod iso;
+    pub mod ratio;
+    pub mod refgraph;
     pub mod ring;
     pub mod sim;
+    pub mod tmodel;
 }
 pub mod gen {
     pub mod circuit;
     pub mod diagram;
+    pub mod history;
     pub mod prng;
+    pub mod shapes;
     pub mod tdiag;
 }
 pub mod mon;
